@@ -14,7 +14,9 @@ RULE = ("deviation-bounded exploration around base programs: 11 definition sets 
         ".align '. =' skip <n> %n .dword link-expression) x 2-3 link regimes; for each base program every permutation of its "
         "definitions, every single definition moved to every top-level position (deviation 1) and, in thorough, every pair moved "
         "(deviation 2); alias/additive chains of depth 1..300 and non-linear chains of depth 1..30 in forward, backward and use-first "
-        "order; every top-level constant definition of the 21 practice programs moved to the top and to the bottom. All variants of a "
+        "order; 4 definition sets x 17 uses again while another name space (a file linked before, linked after, or a header included on "
+        "top) exports the same names with other values (the file's own definitions take precedence wherever they stand); every top-level "
+        "constant definition of the 21 practice programs moved to the top and to the bottom. All variants of a "
         "base program must have the same status, base, bytes and error kinds, and a trailing '.word a,b,c,d' is anchored to values "
         "computed independently. state = one placement of the definitions; transition = moving one definition; non-trivial = distinct "
         "(base program, placement) that assembles")
@@ -78,6 +80,9 @@ def cases(tier):
         else:
             for i in range(len(USES)):
                 yield {"k": "dag", "ds": ds, "uses": [i, (i + 1) % len(USES)]}
+    for ds in ("chain", "diamond2", "labels", "fanout"):
+        for i in range(len(USES)):
+            yield {"k": "dag", "ds": ds, "uses": [i], "shadow": True}
     for kind in ("alias", "add", "nonlin"):
         top = 30 if kind == "nonlin" else 300
         depths = list(range(1, top + 1))
@@ -93,11 +98,26 @@ def program(stmts, reg, uses_skip):
     return pre + "lbl: nop\n" + "\n".join(stmts) + "\n.even\n.word a, b, c, d\nlbe: nop\n" + post
 
 
-def check_variants(r, base_key, variants, anchor_vals, tree=None, what="", mech=""):
+# another name space that exports the same names with other values: the file's own definitions take precedence wherever they stand
+SHADOW_EXPORTS = "a == 77\nb == a + 1\nc == 123\nd == c * 2 + b\n"
+SHADOW_TREE = {"hdr.mac": SHADOW_EXPORTS}
+
+
+def shadow_files(ctx, text):
+    if ctx == "linked-before":
+        return [("ctx.mac", SHADOW_EXPORTS), ("p.mac", text)]
+    if ctx == "linked-after":
+        return [("p.mac", text), ("ctx.mac", SHADOW_EXPORTS)]
+    if ctx == "included-top":
+        return [("p.mac", ".include \"hdr.mac\"\n" + text)]
+    return [("p.mac", text)]
+
+
+def check_variants(r, base_key, variants, anchor_vals, tree=None, what="", mech="", ctx=None):
     """variants: list of (tag, text). All must agree; the first one is the base order."""
     outs = []
     for tag, text in variants:
-        o = driver.assemble([("p.mac", text)], tree=tree)
+        o = driver.assemble(shadow_files(ctx, text), tree=SHADOW_TREE if ctx else tree)
         outs.append((tag, text, o))
         r.states += 1
         r.trans += 1
@@ -107,33 +127,33 @@ def check_variants(r, base_key, variants, anchor_vals, tree=None, what="", mech=
     for tag, text, o in outs:
         if o.status in ("crash", "hang", "silent-fail"):
             r.violation("placement:%s" % o.cls(), "internal failure for one placement of the definitions %s" % (what,),
-                        {"k": "prog", "text": text, "base_text": outs[0][1]}, ref.brief(), o.brief())
+                        {"k": "prog", "text": text, "base_text": outs[0][1], "ctx": ctx}, ref.brief(), o.brief())
             break
     for tag, text, o in outs[1:]:
         k2 = (o.status, o.base, o.code, tuple(o.error_kinds()))
         if k2 != refk and o.status not in ("crash", "hang", "silent-fail"):
             r.violation("order-dependent:%s-vs-%s%s" % (ref.status, o.status, mech), "moving definitions changed the result %s (%s)" % (what, tag),
-                        {"k": "pair", "a": outs[0][1], "b": text}, ref.brief(), o.brief())
+                        {"k": "pair", "a": outs[0][1], "b": text, "ctx": ctx}, ref.brief(), o.brief())
             break
     if anchor_vals is not None and ref.status == "ok":
         want = b"".join(bytes([(v & 0xFFFF) & 255, (v & 0xFFFF) >> 8]) for v in anchor_vals)
         got = ref.code[-(len(want) + 2):-2]
         if got != want:
-            r.violation("anchor", "symbol values differ from the independently computed ones %s" % (what,), {"k": "prog", "text": outs[0][1]},
+            r.violation("anchor", "symbol values differ from the independently computed ones %s" % (what,), {"k": "prog", "text": outs[0][1], "ctx": ctx},
                         want.hex(), got.hex())
 
 
 def check(case, r, tier):
     k = case["k"]
     if k == "prog":
-        o = driver.assemble([("p.mac", case["text"])])
+        o = driver.assemble(shadow_files(case.get("ctx"), case["text"]), tree=SHADOW_TREE)
         r.ran(o.cls(), key=case["text"])
         if o.status in ("crash", "hang", "silent-fail"):
             r.violation("placement:%s" % o.cls(), "internal failure", case, None, o.brief())
         return
     if k == "pair":
-        a = driver.assemble([("p.mac", case["a"])])
-        b = driver.assemble([("p.mac", case["b"])])
+        a = driver.assemble(shadow_files(case.get("ctx"), case["a"]), tree=SHADOW_TREE)
+        b = driver.assemble(shadow_files(case.get("ctx"), case["b"]), tree=SHADOW_TREE)
         r.ran(a.cls(), key=case["a"])
         r.ran(b.cls(), key=case["b"])
         if (a.status, a.base, a.code, tuple(a.error_kinds())) != (b.status, b.base, b.code, tuple(b.error_kinds())):
@@ -189,6 +209,13 @@ def check(case, r, tier):
                 vals = dvalues(ds, lbl, lbe)
                 anchor = [vals[n] for n in "abcd"]
             mech = ":bare-name-statement" if any(USES[i][0] == "bare" for i in case["uses"]) else ""
+            if case.get("shadow"):
+                if reg != "first":
+                    continue
+                for ctx in ("linked-before", "linked-after", "included-top"):
+                    check_variants(r, (ds, tuple(case["uses"]), reg, ctx), variants, anchor, what="(set %s, uses %s, regime %s, same names exported by %s)" % (ds, uses, reg, ctx),
+                                   mech=mech or ":shadowed-export", ctx=ctx)
+                continue
             check_variants(r, (ds, tuple(case["uses"]), reg), variants, anchor, what="(set %s, uses %s, regime %s)" % (ds, uses, reg), mech=mech)
         return
     if k == "chain":
